@@ -54,6 +54,8 @@ type Scenario struct {
 	EmptyKeys  bool             `json:"empty_keys,omitempty"`  // the receiver has TSIG switched on (a non-nil secret map) but holds no key: no envelope can verify
 	Dial       string           `json:"dial,omitempty"`        // "" a preset connection | ok | refused : Transfer.In makes the connection itself (socket seam of the instrumented build; a preset connection elsewhere)
 	Hijack     bool             `json:"hijack,omitempty"`      // sender "out": the handler takes the connection over (Hijack), returns, and Transfer.Out carries on from another task - while a bystander asks the same server ordinary questions over connections of its own
+	Twin       bool             `json:"twin,omitempty"`        // sender "out": the application keeps ONE dns.Transfer value for all its outgoing transfers, and a second receiver asks the same server for the same zone over a connection of its own while the first transfer runs
+	Foreign    bool             `json:"foreign,omitempty"`     // sender "out": Transfer.Out writes through a ResponseWriter that is not the library's server's - an application's own, which signs what it is given under the request's MAC and goes by the TsigTimersOnly calls it receives
 	HijackLate bool             `json:"hijack_late,omitempty"` // sender "out", paced: the handler starts Transfer.Out in a task of its own, waits until the first envelope is on its way, then takes the connection over (Hijack) and returns - the order the library's own transfer tests use
 	OutPaceMs  int              `json:"out_pace_ms,omitempty"` // sender "out": the application hands Transfer.Out one envelope every so often; with a fudge of 5 s the whole transfer takes longer than the fudge
 	PaceMs     int              `json:"pace_ms,omitempty"`     // scripted sender: pause between envelopes (shorter than the read timeout; the whole transfer may take much longer than it)
@@ -163,6 +165,19 @@ func Gen(seed uint64, tier string) any {
 	}
 	if sc.OutPaceMs > 0 && core.Chance(r, 50) {
 		sc.HijackLate, sc.Hijack = true, false
+	}
+	if sc.Sender == "out" && sc.OutPaceMs == 0 && !sc.Hijack && core.Chance(r, 20) {
+		// (many small envelopes, so that the two transfers have many chances to meet)
+		sc.Twin = true
+		if n := totalRecords(sc); n >= 3 && !sc.AllCuts && core.Chance(r, 70) {
+			sc.Cuts = nil
+			for i := 1; i < n; i++ {
+				sc.Cuts = append(sc.Cuts, i)
+			}
+		}
+	}
+	if sc.Sender == "out" && !sc.Twin && !sc.Hijack && !sc.HijackLate && sc.Dial == "" && core.Chance(r, 12) {
+		sc.Foreign = true
 	}
 	defer func() {
 		if sc.OutPaceMs > 0 {
@@ -485,6 +500,9 @@ type run struct {
 	serveRet            bool
 	outErr              string
 	firstFed            bool // the feeder has handed its first envelope to Transfer.Out
+	sharedTr            dns.Transfer
+	twinFin             bool
+	twinsDone           int
 	lastFaultT          time.Time
 	localClosed         bool // the application closed the connection itself while the transfer was running
 }
@@ -827,6 +845,166 @@ func (o *outTask) RunEvent(time.Time) {
 	}
 }
 
+// twinTask is a second receiver: the same zone from the same server over a connection of its own (no
+// middlebox: a healthy link), while the transfer under test runs. It must get the whole zone, without error.
+type twinTask struct {
+	x   *run
+	idx int
+}
+
+//go:norace
+func (t *twinTask) RunEvent(time.Time) {
+	x, k, sc := t.x, t.x.k, t.x.sc
+	defer func() {
+		k.Announce()
+		k.Lock()
+		x.twinsDone++
+		x.twinFin = x.twinsDone == 2
+		k.Unlock()
+	}()
+	if t.idx > 0 {
+		k.WaitSteps("twin.wait", 3+int(sc.RunSeed%23), 2*time.Millisecond)
+	}
+	c := x.n.Dial(x.l, false)
+	tr := &dns.Transfer{Conn: &dns.Conn{Conn: c}, ReadTimeout: 30 * time.Second}
+	q := new(dns.Msg)
+	if strings.HasPrefix(sc.Kind, "ixfr") {
+		q.SetIxfr(zone, clientSerial, "ns1."+zone, "hostmaster."+zone)
+	} else {
+		q.SetAxfr(zone)
+	}
+	q.Id = x.qid ^ uint16(0x4000<<uint(t.idx))
+	if sc.Alg != "" && sc.ServerKey {
+		tr.TsigSecret = secrets()
+		q.SetTsig(keyName, sc.Alg, 300, time.Now().Unix())
+	}
+	want := 0
+	for _, e := range envelopes(sc) {
+		want += len(e)
+	}
+	env, err := tr.In(q, "10.0.0.1:53")
+	got, cerr := 0, common.ErrStr(err)
+	if err == nil {
+		for e := range env {
+			got += len(e.RR)
+			if e.Error != nil && cerr == "" {
+				cerr = e.Error.Error()
+			}
+		}
+	}
+	k.Lock()
+	x.res.Stats["oracle.T1_second_receiver_served"]++
+	if sc.BadFirst || sc.RcodeAt > 0 || sc.WrongID > 0 {
+		// (the sender's own script is faulty: nothing to ask of this transfer)
+	} else if cerr != "" || got != want {
+		x.res.Fail("T1", "second-receiver-failed", "a second receiver that asked the same server for the same zone over a connection of its own, while another transfer was being sent, got %d of %d records and the error %q", got, want, cerr)
+	}
+	k.Unlock()
+}
+
+// foreignWriter is an application's own dns.ResponseWriter: it frames and writes what it is given, signs
+// messages that carry a TSIG stub under the request's MAC, and switches to timers-only when it is told to.
+type foreignWriter struct {
+	x          *run
+	c          net.Conn
+	reqMAC     string
+	timersOnly bool
+	status     error
+}
+
+//go:norace
+func (w *foreignWriter) LocalAddr() net.Addr { return w.c.LocalAddr() }
+
+//go:norace
+func (w *foreignWriter) RemoteAddr() net.Addr { return w.c.RemoteAddr() }
+
+//go:norace
+func (w *foreignWriter) TsigStatus() error { return w.status }
+
+//go:norace
+func (w *foreignWriter) TsigTimersOnly(b bool) { w.timersOnly = b }
+
+//go:norace
+func (w *foreignWriter) Hijack() {}
+
+//go:norace
+func (w *foreignWriter) Close() error { return w.c.Close() }
+
+//go:norace
+func (w *foreignWriter) Write(b []byte) (int, error) {
+	if _, err := w.c.Write(oracle.Frame(b)); err != nil {
+		return 0, err
+	}
+	return len(b), nil
+}
+
+//go:norace
+func (w *foreignWriter) WriteMsg(m *dns.Msg) error {
+	var out []byte
+	var err error
+	if t := m.IsTsig(); t != nil && w.status == nil {
+		out, w.reqMAC, err = dns.TsigGenerate(m, secretGood, w.reqMAC, w.timersOnly)
+	} else {
+		out, err = m.Pack()
+	}
+	if err != nil {
+		return err
+	}
+	_, err = w.Write(out)
+	return err
+}
+
+// foreignTask is a server of the application's own making: it accepts one connection, reads the request,
+// checks its signature and hands it to Transfer.Out with its own writer.
+type foreignTask struct{ x *run }
+
+//go:norace
+func (f *foreignTask) RunEvent(time.Time) {
+	x, k := f.x, f.x.k
+	defer func() {
+		k.Lock()
+		x.serveRet = true
+		k.Unlock()
+	}()
+	ac, err := x.l.Accept()
+	if err != nil {
+		return
+	}
+	c := ac.(*simnet.StreamConn)
+	defer c.Close()
+	c.SetDeadline(time.Now().Add(time.Hour))
+	var hdr [2]byte
+	if !readFull(c, hdr[:]) {
+		return
+	}
+	qb := make([]byte, int(hdr[0])<<8|int(hdr[1]))
+	if !readFull(c, qb) {
+		return
+	}
+	req := new(dns.Msg)
+	if req.Unpack(qb) != nil {
+		return
+	}
+	w := &foreignWriter{x: x, c: c}
+	if t := req.IsTsig(); t != nil {
+		if x.sc.ServerKey {
+			w.status = dns.TsigVerify(qb, secretGood, "", false)
+		} else {
+			w.status = dns.ErrSecret
+		}
+		w.reqMAC = t.MAC
+	}
+	k.Bump("cover.transfer_out_through_foreign_writer")
+	x.serveTransfer(w, req)
+	// stay until the receiver has gone
+	buf := make([]byte, 64)
+	for {
+		if _, err := c.Read(buf); err != nil {
+			break
+		}
+	}
+}
+
 // bystander asks the server ordinary questions over connections of its own while the transfer runs.
 type bystander struct{ x *run }
 
@@ -873,9 +1051,14 @@ func (x *run) serveTransfer(w dns.ResponseWriter, r *dns.Msg) {
 		close(ch)
 	}
 	tr := new(dns.Transfer)
+	if x.sc.Twin {
+		tr = &x.sharedTr // one value for every outgoing transfer of the application
+	}
 	err := tr.Out(w, r, ch)
 	x.k.Lock()
-	x.outErr = common.ErrStr(err)
+	if r.Id == x.qid {
+		x.outErr = common.ErrStr(err)
+	}
 	x.k.Unlock()
 	// leave the connection to the client / relay to close
 }
@@ -922,7 +1105,7 @@ func (s serveTask) RunEvent(time.Time) {
 type cliDone struct{ x *run }
 
 //go:norace
-func (c cliDone) Holds() bool { return c.x.cliFin }
+func (c cliDone) Holds() bool { return c.x.cliFin && c.x.twinFin }
 
 type lifeTask struct{ x *run }
 
@@ -948,7 +1131,7 @@ type doneCheck struct{ x *run }
 //go:norace
 func (d doneCheck) Check(time.Time) string {
 	x := d.x
-	if x.cliFin && (x.srv == nil || x.serveRet) {
+	if x.cliFin && x.twinFin && (x.srv == nil || x.serveRet) {
 		return "done"
 	}
 	return ""
@@ -1029,14 +1212,26 @@ func runIn(sc *Scenario, res *core.Result, verbose bool) {
 			x.srv.TsigSecret = secrets()
 		}
 		relayS = n.Dial(x.l, true)
-		k.Go("serve", serveTask{x})
+		if sc.Foreign {
+			x.srv = nil
+			k.Go("serve", &foreignTask{x})
+		} else {
+			k.Go("serve", serveTask{x})
+		}
 		if sc.Hijack {
 			k.Go("bystander", &bystander{x})
+		}
+		if sc.Twin {
+			k.Go("twin", &twinTask{x, 0})
+			k.Go("twin2", &twinTask{x, 1})
+		} else {
+			x.twinFin = true
 		}
 	} else {
 		var snd *simnet.StreamConn
 		relayS, snd = n.Pair(true)
 		x.sndConn = snd
+		x.twinFin = true
 		k.Go("sender", &scriptedTask{x})
 	}
 	if sc.CutAt > 0 {
